@@ -328,6 +328,13 @@ pub fn after_server_frame(sim: &mut Sim, ticked: bool, t: u32, injected: bool) {
         return;
     }
     let Some(snap) = sim.snaps.get(&t).cloned() else { return };
+    for c in 0..sim.clients.len() {
+        if let (Some(vis), Some(sess)) = (snap.vis[c].as_ref(), sim.clients[c].sess.as_mut()) {
+            if sess.initial.is_none() {
+                sess.initial = Some(vis.clone());
+            }
+        }
+    }
     let period = sim.prof.app.period.max(1);
     let mut split_probe = 0u64;
     for c in 0..sim.clients.len() {
@@ -1137,15 +1144,16 @@ pub fn after_client_frame(sim: &mut Sim, c: usize) {
     }
     sess.sev_seen.extend(seen_now);
     let after_crash = sess.after_crash;
-    let late_auth = sim.prof.app.auth != 1;
+    // Some entity of the initial visible state is still not held although an update message was applied.
+    let initial_missing = sess.upd_applied > 0 && sess.initial.as_ref().map(|i| i.iter().any(|e| !held.contains_key(e) && expected.as_ref().map(|x| x.contains_key(e)).unwrap_or(false))).unwrap_or(false);
     for (p, o, d) in v {
         // The same observation can break several properties: a new session that does not converge
         // like a first connection (C09), an incomplete state after a late authorisation (C07).
         if after_crash && matches!(p, "C01" | "C02" | "C03") {
             sim.violate("C09", o, format!("[session after a disconnect / restart] {d}"));
         }
-        if late_auth && p == "C03" && matches!(o, "missing_entity" | "component_presence") {
-            sim.violate("C07", o, format!("[client authorised after connecting] {d}"));
+        if p == "C03" && o == "missing_entity" && initial_missing {
+            sim.violate("C07", "initial_state_incomplete", format!("[entity was visible at the tick the client became authorised] {d}"));
         }
         sim.violate(p, o, d);
     }
@@ -1308,8 +1316,11 @@ pub fn end_of_run(sim: &mut Sim) {
             if sess.after_crash {
                 extra.push(("C09", *o, format!("[session after a disconnect / restart] {d}")));
             }
-            if sim.prof.app.auth != 1 && matches!(*o, "missing_entity" | "entity_count" | "component_presence") {
-                extra.push(("C07", *o, format!("[client authorised after connecting] {d}")));
+            if *o == "missing_entity" {
+                let init = sess.initial.as_ref().map(|i| sim.slots.iter().flatten().any(|e| i.contains(&e.to_bits()) && !held.contains_key(&e.to_bits()) && sim.replicated(*e) && sim.visible(c, e.to_bits()))).unwrap_or(false);
+                if init {
+                    extra.push(("C07", "initial_state_incomplete", format!("[an entity visible at the tick the client became authorised is still missing] {d}")));
+                }
             }
             if injected_run && !sim.clients[c].ever_injected {
                 extra.push(("C06", "honest_client_not_served", format!("[after malformed input from another client] {d}")));
